@@ -81,10 +81,26 @@ fn build_all(obs: &mut Obs) -> R {
 }
 
 fn run_bins(corpus: &PathBuf) -> Result<Vec<(String, String)>, Fail> {
+    run_bins_env(corpus, false)
+}
+
+/// `closed_stderr`: the children get a standard error stream that rejects every write (/dev/full), the way a daemon with a closed
+/// or full stderr runs: a parser that prints a diagnostic in one configuration only then panics there and returns a value elsewhere
+fn run_bins_env(corpus: &PathBuf, closed_stderr: bool) -> Result<Vec<(String, String)>, Fail> {
     let mut outs = Vec::new();
     for (name, _) in CONFIGS {
         let bin = harness_dir().join(format!("target-cfg-{}/release/cfgdiff", name));
-        let o = Command::new(&bin).arg(corpus).output();
+        let mut cmd = Command::new(&bin);
+        cmd.arg(corpus);
+        if closed_stderr {
+            match std::fs::OpenOptions::new().write(true).open("/dev/full") {
+                Ok(f) => {
+                    cmd.stderr(std::process::Stdio::from(f));
+                }
+                Err(_) => return Ok(Vec::new()),
+            }
+        }
+        let o = cmd.output();
         match o {
             Ok(o) if o.status.success() => outs.push((name.to_string(), String::from_utf8_lossy(&o.stdout).to_string())),
             Ok(o) => return fail(format!("C18:run:{}", name), format!("cfgdiff built with feature set `{}` crashed: {} {}", name, o.status, trunc(&String::from_utf8_lossy(&o.stderr)))),
@@ -160,6 +176,25 @@ fn run(ctx: &Ctx) {
         }
         obs.evals_add(((base.len() - n) * 3) as u64);
         obs.sample(json!({"fixed_probes": base[n..].to_vec()}));
+        // the first inputs once more with an unwritable standard error stream
+        let m = n.min(2000);
+        let path2 = dir.join(format!("corpus-{}-b.txt", std::process::id()));
+        let text: String = inputs.iter().take(m).map(|i| format!("{}\n", hex(i))).collect();
+        std::fs::write(&path2, text).map_err(|e| Fail { sig: "harness:corpus".into(), msg: format!("{}", e) })?;
+        let outs2 = run_bins_env(&path2, true);
+        let _ = std::fs::remove_file(&path2);
+        let outs2 = outs2?;
+        if outs2.is_empty() {
+            obs.class("closed-stderr-pass-unavailable");
+        } else {
+            obs.evals_add((m * 3) as u64);
+            for (name, out) in &outs2[1..] {
+                ensure!(*out == outs2[0].1, format!("C18:differential:closed-stderr:{}-vs-{}", outs2[0].0, name), "with an unwritable stderr configurations `{}` and `{}` disagree", outs2[0].0, name);
+            }
+            let first: Vec<&str> = outs2[0].1.lines().take(m).collect();
+            ensure!(first == base[..m].to_vec(), "C18:differential:closed-stderr:differs-from-normal-run", "configuration `{}` answers differently when stderr is unwritable", outs2[0].0);
+            obs.class("closed-stderr-pass");
+        }
         for (i, l) in base.iter().take(n).enumerate() {
             let ok: u32 = l.split(' ').nth(1).and_then(|x| x.parse().ok()).unwrap_or(0);
             if ok > 0 {
